@@ -1,7 +1,6 @@
 package facts
 
 import (
-	"strconv"
 	"fmt"
 	"go/ast"
 	"go/importer"
@@ -11,6 +10,7 @@ import (
 	"os"
 	"path/filepath"
 	"sort"
+	"strconv"
 	"strings"
 )
 
